@@ -12,14 +12,18 @@ package verifx
 
 import (
 	"bytes"
+	"context"
+	"crypto/tls"
 	"fmt"
 	"io"
 	"math/rand"
 	"net"
+	"os"
 	"strconv"
 	"strings"
 	"sync"
 	"sync/atomic"
+	"syscall"
 	"time"
 )
 
@@ -39,6 +43,7 @@ type TunnelScenario struct {
 	CMode string  `json:"cmode"` // half | close | wait
 	Trig  int     `json:"trig"`  // tokens of the client's stream the upstream reads before replying; -1 = EOF
 	UMode string  `json:"umode"`
+	USlow int     `json:"uslow"` // 1: the upstream reads only after it has written everything
 }
 
 type TunnelCase struct {
@@ -49,11 +54,13 @@ type TunnelCase struct {
 	URecv  []int          `json:"urecv"`
 	CReads bool           `json:"creads"`
 	// concretisation, fixed by the check so that a replay is exact
-	Path  string `json:"path"`  // tcp | sni | dyn | ws
-	Spell string `json:"spell"` // tiny | line | big | mix
-	Hello string `json:"hello"` // which captured ClientHello
-	Split int    `json:"split"` // length of hello token 11 in bytes (< 0: counted from the end, 0: half of the hello)
-	ID    int    `json:"id"`
+	Path   string `json:"path"`             // tcp | sni | dyn | ws | tls (tcp listener that terminates TLS)
+	TLSVer int    `json:"tlsver,omitempty"` // tls: 12 | 13 = the client's maximum TLS version
+	Cork   bool   `json:"cork,omitempty"`   // tls: last data record and close_notify leave in ONE tcp segment
+	Spell  string `json:"spell"`            // tiny | line | big | mix | huge (client token 1 = 256 KiB)
+	Hello  string `json:"hello"`            // which captured ClientHello
+	Split  int    `json:"split"`            // length of hello token 11 in bytes (< 0: counted from the end, 0: half of the hello)
+	ID     int    `json:"id"`
 }
 
 // WS101Bytes is the upstream's answer to the upgrade request (token 98).
@@ -77,6 +84,13 @@ func tokBytes(spell string, t int) []byte {
 	if spell == "mix" {
 		spell = []string{"big", "tiny", "line"}[t%3]
 	}
+	if spell == "huge" { // one token far larger than a socket buffer, the rest short; upstream messages short
+		if t == 1 {
+			spell = "huge1"
+		} else {
+			spell = "line"
+		}
+	}
 	key := spell + ":" + strconv.Itoa(t)
 	tokMu.Lock()
 	defer tokMu.Unlock()
@@ -89,6 +103,9 @@ func tokBytes(spell string, t int) []byte {
 		b = []byte{byte(0x40 + t)}
 	case "line":
 		b = []byte(fmt.Sprintf("[tok %02d %s]\r\n", t, strings.Repeat(string(rune('a'+t%26)), 10)))
+	case "huge1":
+		b = make([]byte, 256*1024+1)
+		rand.New(rand.NewSource(424243)).Read(b)
 	default: // big
 		n := bigSizes[t]
 		if n == 0 {
@@ -148,6 +165,9 @@ type TunnelEnv struct {
 	ProxyAddr string
 	UpL       *net.TCPListener
 	WS        bool
+	// TLSClient != nil: the proxy terminates TLS; the client speaks TLS with this configuration
+	// (MaxVersion is set per case).  The tunnelled stream is what the TLS client writes.
+	TLSClient *tls.Config
 	// Before is called with the case before the client connects (e.g. to set the PROXY option).
 	Before func(c *TunnelCase)
 }
@@ -158,10 +178,23 @@ type TunnelResult struct {
 	UEOF, CEOF   bool
 	UErr, CErr   string
 	Hang         bool
-	NotTunnelled string // the connection never became a tunnel (websocket handshake refused, dial failed): no verdict
+	NotTunnelled string // the connection never became a tunnel / the scenario could not be set up: no verdict
 	HelloEnd     int    // offset in ExpU just behind the ClientHello (sni), else 0
 	HdrLen       int
 	Dur          time.Duration
+}
+
+// UEnd says how the upstream's connection ended: eof | reset | error | open.
+func (r *TunnelResult) UEnd() string {
+	switch {
+	case r.UEOF:
+		return "eof"
+	case strings.Contains(r.UErr, "reset"):
+		return "reset"
+	case r.UErr != "":
+		return "error"
+	}
+	return "open"
 }
 
 var tunnelHangs int64
@@ -178,14 +211,68 @@ func TunnelDeadline() time.Duration {
 
 func TunnelHangs() int64 { return atomic.LoadInt64(&tunnelHangs) }
 
+// corkConn lets the client decide how its byte stream is cut into tcp segments: while corked,
+// writes are collected and leave in one Write of the underlying connection.
+type corkConn struct {
+	*net.TCPConn
+	mu     sync.Mutex
+	corked bool
+	buf    []byte
+}
+
+func (c *corkConn) Write(p []byte) (int, error) {
+	c.mu.Lock()
+	defer c.mu.Unlock()
+	if c.corked {
+		c.buf = append(c.buf, p...)
+		return len(p), nil
+	}
+	return c.TCPConn.Write(p)
+}
+
+func (c *corkConn) cork() {
+	c.mu.Lock()
+	c.corked = true
+	c.mu.Unlock()
+}
+
+func (c *corkConn) uncork() error {
+	c.mu.Lock()
+	defer c.mu.Unlock()
+	c.corked = false
+	b := c.buf
+	c.buf = nil
+	if len(b) == 0 {
+		return nil
+	}
+	// crypto/tls leaves an expired write deadline behind after close_notify
+	c.TCPConn.SetWriteDeadline(time.Time{})
+	_, err := c.TCPConn.Write(b)
+	return err
+}
+
+func (c *corkConn) Close() error {
+	c.uncork()
+	return c.TCPConn.Close()
+}
+
+// tunnelConn is what a scripted endpoint needs of its connection (*net.TCPConn, *tls.Conn).
+type tunnelConn interface {
+	io.ReadWriteCloser
+	CloseWrite() error
+}
+
 type tunnelRun struct {
-	env      *TunnelEnv
-	c        *TunnelCase
-	sp       *TunnelSpelling
-	res      *TunnelResult
-	hdrReady chan struct{}
-	mu       sync.Mutex
-	conns    []net.Conn
+	env        *TunnelEnv
+	c          *TunnelCase
+	sp         *TunnelSpelling
+	res        *TunnelResult
+	hdrReady   chan struct{}
+	clientGone chan struct{} // closed when the client has closed its connection
+	quit       chan struct{} // closed when the run is being torn down
+	mu         sync.Mutex
+	conns      []net.Conn
+	quitOnce   sync.Once
 }
 
 func (r *tunnelRun) track(c net.Conn) {
@@ -195,6 +282,7 @@ func (r *tunnelRun) track(c net.Conn) {
 }
 
 func (r *tunnelRun) closeAll() {
+	r.quitOnce.Do(func() { close(r.quit) })
 	r.mu.Lock()
 	for _, c := range r.conns {
 		c.Close()
@@ -241,7 +329,7 @@ func (r *tunnelRun) upstream(conn *net.TCPConn) {
 		}
 		threshold = len(sp.Hdr)*c.Sc.Proxy + len(sp.Cat(cs[:c.Sc.Trig]))
 	}
-	trigCh := make(chan bool, 1)
+	trigCh := make(chan bool, 2)
 	writerDone := make(chan struct{})
 	var selfClosed int32
 	go func() {
@@ -252,7 +340,12 @@ func (r *tunnelRun) upstream(conn *net.TCPConn) {
 				return
 			}
 		}
-		if !<-trigCh {
+		select {
+		case ok := <-trigCh:
+			if !ok {
+				return
+			}
+		case <-r.quit:
 			return
 		}
 		for ; i < len(segs); i++ {
@@ -269,6 +362,21 @@ func (r *tunnelRun) upstream(conn *net.TCPConn) {
 		}
 	}()
 	fired := false
+	if c.Sc.Trig == -2 {
+		// "when the client has gone": the client's script closes clientGone after its Close returned
+		fired = true
+		go func() {
+			select {
+			case <-r.clientGone:
+				trigCh <- true
+			case <-r.quit:
+			}
+		}()
+	}
+	if c.Sc.USlow == 1 {
+		// a slow reader: nothing is read before everything is written
+		<-writerDone
+	}
 	buf := make([]byte, 64*1024)
 	var recv []byte
 	for {
@@ -298,8 +406,10 @@ func (r *tunnelRun) upstream(conn *net.TCPConn) {
 	res.URecv = recv
 }
 
-// client plays the scripted client on a connection to the proxy.
-func (r *tunnelRun) client(conn *net.TCPConn) {
+// client plays the scripted client on a connection to the proxy.  raw is the tcp connection,
+// conn what the client reads and writes (raw itself, or the TLS connection on top of it).
+func (r *tunnelRun) client(raw *net.TCPConn, conn tunnelConn, cork *corkConn) {
+	defer close(r.clientGone)
 	defer conn.Close()
 	c, sp, res := r.c, r.sp, r.res
 	if r.env.WS {
@@ -310,6 +420,7 @@ func (r *tunnelRun) client(conn *net.TCPConn) {
 			return
 		}
 	}
+	abort := c.Sc.CMode == "abort"
 	gate := make(chan bool, 1)
 	writerDone := make(chan struct{})
 	var selfClosed int32
@@ -318,7 +429,11 @@ func (r *tunnelRun) client(conn *net.TCPConn) {
 		if !<-gate {
 			return
 		}
-		for _, s := range c.Sc.CSeg {
+		finishes := c.Sc.CMode == "half" || c.Sc.CMode == "close" || abort
+		for i, s := range c.Sc.CSeg {
+			if cork != nil && c.Cork && finishes && i == len(c.Sc.CSeg)-1 {
+				cork.cork() // the last segment travels together with the end of the stream
+			}
 			if _, err := conn.Write(sp.Cat(s)); err != nil {
 				return
 			}
@@ -327,8 +442,11 @@ func (r *tunnelRun) client(conn *net.TCPConn) {
 		case "close":
 			atomic.StoreInt32(&selfClosed, 1)
 			conn.Close()
-		case "half":
+		case "half", "abort":
 			conn.CloseWrite()
+			if cork != nil {
+				cork.uncork()
+			}
 		}
 	}()
 	opened := false
@@ -336,10 +454,25 @@ func (r *tunnelRun) client(conn *net.TCPConn) {
 		opened = true
 		gate <- true
 	}
+	// an aborting client looks at the upstream's first message but leaves its last byte unread
+	need := -1
+	if abort {
+		need = -1
+		for i := 0; i < c.UFree && i < len(c.USegs); i++ {
+			need += len(sp.Cat(c.USegs[i]))
+		}
+		if need < 0 {
+			need = 0
+		}
+	}
 	buf := make([]byte, 64*1024)
 	var recv []byte
-	for {
-		n, err := conn.Read(buf)
+	for need < 0 || len(recv) < need {
+		b := buf
+		if need >= 0 && need-len(recv) < len(b) {
+			b = b[:need-len(recv)]
+		}
+		n, err := conn.Read(b)
 		recv = append(recv, buf[:n]...)
 		if !opened && len(recv) >= len(WS101Bytes) && bytes.HasPrefix(recv, []byte("HTTP/1.1 101")) {
 			opened = true
@@ -366,19 +499,33 @@ func (r *tunnelRun) client(conn *net.TCPConn) {
 	}
 	<-writerDone
 	res.CRecv = recv
+	if abort && res.NotTunnelled == "" {
+		if res.CEOF || res.CErr != "" || len(recv) < need {
+			res.NotTunnelled = fmt.Sprintf("abort scenario not established: client read %d of %d bytes of the first message (eof=%v err=%q)", len(recv), need, res.CEOF, res.CErr)
+			return
+		}
+		// the client leaves only when everything it sent, and its FIN, has been taken over by the
+		// proxy's side of the connection (acknowledged): from then on nothing of it is in the
+		// client's hands any more and its departure cannot take any of it along
+		if err := waitSendQueueEmpty(raw, r.quit, TunnelDeadline()/2); err != nil {
+			res.NotTunnelled = "abort scenario not established: " + err.Error()
+		}
+	}
 }
 
 // RunTunnel executes one case in the lane and returns what the endpoints saw.
 func RunTunnel(env *TunnelEnv, c *TunnelCase, hello []byte) *TunnelResult {
 	sp := &TunnelSpelling{Spell: c.Spell, Hello: hello, Split: c.Split}
 	res := &TunnelResult{}
-	r := &tunnelRun{env: env, c: c, sp: sp, res: res, hdrReady: make(chan struct{})}
+	r := &tunnelRun{env: env, c: c, sp: sp, res: res, hdrReady: make(chan struct{}),
+		clientGone: make(chan struct{}), quit: make(chan struct{})}
 	deadline := TunnelDeadline()
 	t0 := time.Now()
 	if env.Before != nil {
 		env.Before(c)
 	}
 	upDone := make(chan struct{})
+	drainForeign(env.UpL)
 	env.UpL.SetDeadline(t0.Add(deadline))
 	go func() {
 		defer close(upDone)
@@ -395,6 +542,7 @@ func RunTunnel(env *TunnelEnv, c *TunnelCase, hello []byte) *TunnelResult {
 	if err != nil {
 		res.NotTunnelled = "dial proxy: " + err.Error()
 		close(r.hdrReady)
+		close(r.clientGone)
 		close(clDone)
 	} else {
 		tc := cc.(*net.TCPConn)
@@ -409,7 +557,26 @@ func RunTunnel(env *TunnelEnv, c *TunnelCase, hello []byte) *TunnelResult {
 		close(r.hdrReady)
 		go func() {
 			defer close(clDone)
-			r.client(tc)
+			if env.TLSClient == nil {
+				r.client(tc, tc, nil)
+				return
+			}
+			cfg := env.TLSClient.Clone()
+			cfg.MaxVersion = tls.VersionTLS13
+			if c.TLSVer == 12 {
+				cfg.MaxVersion = tls.VersionTLS12
+			}
+			ck := &corkConn{TCPConn: tc}
+			tl := tls.Client(ck, cfg)
+			tc.SetDeadline(time.Now().Add(deadline))
+			if err := tl.Handshake(); err != nil {
+				res.NotTunnelled = "tls handshake with the proxy: " + err.Error()
+				tc.Close()
+				close(r.clientGone)
+				return
+			}
+			tc.SetDeadline(time.Time{})
+			r.client(tc, tl, ck)
 		}()
 	}
 	timer := time.NewTimer(deadline)
@@ -427,6 +594,11 @@ func RunTunnel(env *TunnelEnv, c *TunnelCase, hello []byte) *TunnelResult {
 			<-ch
 		}
 	}
+	if n := drainForeign(env.UpL); n > 0 && res.NotTunnelled == "" {
+		// somebody else connected to the scripted upstream during the case (another process on a shared
+		// machine): the upstream may have played its script on the wrong connection
+		res.NotTunnelled = fmt.Sprintf("disturbed: %d further connection(s) arrived at the scripted upstream", n)
+	}
 	env.UpL.SetDeadline(time.Time{})
 	r.closeAll()
 	res.Dur = time.Since(t0)
@@ -437,6 +609,20 @@ func RunTunnel(env *TunnelEnv, c *TunnelCase, hello []byte) *TunnelResult {
 		res.HelloEnd = res.HdrLen + len(hello)
 	}
 	return res
+}
+
+// drainForeign closes the connections waiting in the listener's queue and returns their number.
+func drainForeign(l *net.TCPListener) int {
+	n := 0
+	for {
+		l.SetDeadline(time.Now())
+		c, err := l.Accept()
+		if err != nil {
+			return n
+		}
+		c.Close()
+		n++
+	}
 }
 
 func firstDiff(a, b []byte) int {
@@ -466,6 +652,9 @@ func around(b []byte, i int) string {
 // JudgeTunnel compares the result with the specification's streams.  clause "" = conforms;
 // clause "hang" / "not-tunnelled" = no verdict; anything else names the violated clause of C09.
 func JudgeTunnel(c *TunnelCase, res *TunnelResult) (clause, msg string) {
+	if res.NotTunnelled != "" {
+		return "not-tunnelled", res.NotTunnelled
+	}
 	// safety part, valid at any moment: what arrived is a prefix of what was sent (+ PROXY line first)
 	if !bytes.HasPrefix(res.ExpU, res.URecv) {
 		i := firstDiff(res.ExpU, res.URecv)
@@ -490,9 +679,6 @@ func JudgeTunnel(c *TunnelCase, res *TunnelResult) (clause, msg string) {
 		return "in-order", fmt.Sprintf("client stream differs from what the upstream sent at offset %d: got %s want %s (read %d bytes, sent %d)",
 			i, around(res.CRecv, i), around(res.ExpC, i), len(res.CRecv), len(res.ExpC))
 	}
-	if res.NotTunnelled != "" {
-		return "not-tunnelled", res.NotTunnelled
-	}
 	if res.Hang {
 		return "hang", fmt.Sprintf("scenario did not finish (upstream read %d/%d, client read %d/%d; uerr=%q cerr=%q)",
 			len(res.URecv), len(res.ExpU), len(res.CRecv), len(res.ExpC), res.UErr, res.CErr)
@@ -505,6 +691,10 @@ func JudgeTunnel(c *TunnelCase, res *TunnelResult) (clause, msg string) {
 	detail := fmt.Sprintf("upstream read %d of %d bytes (eof=%v err=%q), client read %d of %d bytes (eof=%v err=%q)",
 		len(res.URecv), len(res.ExpU), res.UEOF, res.UErr, len(res.CRecv), len(res.ExpC), res.CEOF, res.CErr)
 	switch {
+	case uShort && c.Sc.CMode == "abort":
+		// the client finished first (everything sent, FIN sent, all of it acknowledged by the proxy's side)
+		// and then left; that the opposite direction failed afterwards must not cost the upstream any of it
+		return "first-finisher-delivered", "the client finished first and then went away; the upstream -> client direction failed, and data the client had sent before did not reach the (slow) upstream: " + detail
 	case cShort && c.Sc.CMode == "half":
 		// "a client that half-closes after sending still receives the reply"
 		return "half-close-reply", "client half-closed after sending and did not receive the complete reply: " + detail
@@ -520,20 +710,133 @@ func JudgeTunnel(c *TunnelCase, res *TunnelResult) (clause, msg string) {
 }
 
 // ListenFree opens a tcp listener on an explicit free loopback port.
-func ListenFree() (*net.TCPListener, string, error) {
+func ListenFree() (*net.TCPListener, string, error) { return ListenFreeRcvbuf(0) }
+
+// ListenFreeRcvbuf is ListenFree with a receive buffer of rcvbuf bytes on the accepted
+// connections (0 = default): an endpoint whose kernel holds little, so that what it does not
+// read stays queued on the sender's side.
+func ListenFreeRcvbuf(rcvbuf int) (*net.TCPListener, string, error) {
+	// Ports come from a private range below the kernel's ephemeral range: on a shared machine a
+	// just-released ephemeral port is quickly handed to somebody else's listener, and a late client
+	// of its previous owner would be taken for the proxy's connection.
 	var last error
-	for i := 0; i < 50; i++ {
-		l0, err := net.Listen("tcp", "127.0.0.1:0")
-		if err != nil {
-			return nil, "", err
+	for i := 0; i < 200; i++ {
+		portMu.Lock()
+		port := 20000 + portRand.Intn(12000)
+		portMu.Unlock()
+		addr := fmt.Sprintf("127.0.0.1:%d", port)
+		lc := net.ListenConfig{}
+		if rcvbuf > 0 {
+			lc.Control = func(network, address string, c syscall.RawConn) error {
+				return c.Control(func(fd uintptr) { setRcvbuf(fd, rcvbuf) })
+			}
 		}
-		addr := l0.Addr().String()
-		l0.Close()
-		l, err := net.Listen("tcp", addr)
+		l, err := lc.Listen(context.Background(), "tcp", addr)
 		if err == nil {
 			return l.(*net.TCPListener), addr, nil
 		}
 		last = err
 	}
 	return nil, "", last
+}
+
+var (
+	portMu   sync.Mutex
+	portRand = rand.New(rand.NewSource(time.Now().UnixNano() ^ int64(os.Getpid())<<20))
+)
+
+// waitSendQueueEmpty returns when everything written to c (and its FIN) has been acknowledged
+// by the peer's kernel.  It waits for that condition, not for time to pass; the limit only
+// turns a scenario that cannot be set up into "no verdict".
+func waitSendQueueEmpty(c *net.TCPConn, quit <-chan struct{}, limit time.Duration) error {
+	end := time.Now().Add(limit)
+	for {
+		n, err := sendQueueLen(c)
+		if err != nil {
+			return err
+		}
+		if n == 0 {
+			return nil
+		}
+		if time.Now().After(end) {
+			return fmt.Errorf("%d bytes of the client's data still unacknowledged after %v (socket buffers too small for this scenario)", n, limit)
+		}
+		select {
+		case <-quit:
+			return fmt.Errorf("run ended")
+		case <-time.After(200 * time.Microsecond):
+		}
+	}
+}
+
+var (
+	probeOnce sync.Once
+	probeOK   bool
+	probeMsg  string
+)
+
+// TCPKeepsQueueAcrossReset probes the assumption the failing-direction scenarios rest on, on a
+// DIRECT loopback connection: A sends, half-closes, and when all of it is acknowledged closes
+// with unread data (its kernel resets the connection); B then writes to it and reads afterwards.
+// True when B still gets all of A's data followed by a clean EOF.
+func TCPKeepsQueueAcrossReset() (bool, string) {
+	probeOnce.Do(func() {
+		l, addr, err := ListenFree()
+		if err != nil {
+			probeMsg = err.Error()
+			return
+		}
+		defer l.Close()
+		type acc struct {
+			c   *net.TCPConn
+			err error
+		}
+		ach := make(chan acc, 1)
+		go func() { c, err := l.AcceptTCP(); ach <- acc{c, err} }()
+		ac, err := net.DialTimeout("tcp", addr, 5*time.Second)
+		if err != nil {
+			probeMsg = err.Error()
+			return
+		}
+		a := ac.(*net.TCPConn)
+		defer a.Close()
+		bb := <-ach
+		if bb.err != nil {
+			probeMsg = bb.err.Error()
+			return
+		}
+		b := bb.c
+		defer b.Close()
+		a.SetDeadline(time.Now().Add(10 * time.Second))
+		b.SetDeadline(time.Now().Add(10 * time.Second))
+		data := make([]byte, 24*1024)
+		rand.New(rand.NewSource(7)).Read(data)
+		if _, err := b.Write([]byte("m1")); err != nil {
+			probeMsg = err.Error()
+			return
+		}
+		if _, err := a.Write(data); err != nil {
+			probeMsg = err.Error()
+			return
+		}
+		a.CloseWrite()
+		one := make([]byte, 1)
+		if _, err := io.ReadFull(a, one); err != nil {
+			probeMsg = err.Error()
+			return
+		}
+		if err := waitSendQueueEmpty(a, make(chan struct{}), 5*time.Second); err != nil {
+			probeMsg = err.Error()
+			return
+		}
+		a.Close() // one byte unread: reset
+		b.Write([]byte("m2"))
+		got, err := io.ReadAll(b)
+		if err != nil || !bytes.Equal(got, data) {
+			probeMsg = fmt.Sprintf("after the peer's reset a direct connection delivered %d of %d bytes, err=%v", len(got), len(data), err)
+			return
+		}
+		probeOK = true
+	})
+	return probeOK, probeMsg
 }
